@@ -1,1 +1,222 @@
-// placeholder
+// C16: float arms, conversions, comparisons.  Operands are symbolic f64 *bit patterns*
+// (all NaN payloads, both zeros, subnormals, infinities).
+
+pub(super) fn fv(v: Value) -> f64 {
+    f64::from_bits(v.0)
+}
+pub(super) fn fexp(x: f64) -> Exp {
+    Exp::Val(Value::from(x))
+}
+
+// Reference total order, written on the sign-magnitude encoding (NOT via total_cmp):
+// negative numbers order by descending magnitude below all non-negative ones.
+pub(super) fn ord_key(v: Value) -> u64 {
+    let bits = v.0;
+    if bits >> 63 == 1 { !bits } else { bits | (1u64 << 63) }
+}
+
+// dest, reg1, float immediate
+macro_rules! arm_imm_float {
+    ($name:ident, $variant:ident, $dm:expr, $m1:expr, $ce:expr, |$a:ident, $b:ident| $spec:expr) => {
+        vm_harness! {
+            #[kani::unwind(9)]
+            fn $name() {
+                let (od, o1) = (OFF_DEST, OFF_R1);
+                let cbits: [u64; 3] = kani::any();
+                let ci: u16 = 1;
+                let mut t = mk_thread(
+                    vec![Instr::$variant(enc($dm, od), enc($m1, o1), ci), Instr::Stop],
+                    vec![],
+                    vec![f64::from_bits(cbits[0]), f64::from_bits(cbits[1]), f64::from_bits(cbits[2])],
+                );
+                push_frame(&mut t, ValueTag::Float);
+                if $m1 == T { let v = sym_val(ValueTag::Float); t.value_stack.push(v); }
+                let mut model = t.value_stack.clone();
+                let va = fetch(&mut model, $m1, o1);
+                let $a = va;
+                let $b = Value(cbits[ci as usize], ValueTag::Float);
+                let exp: Exp = $spec;
+                check_step(&mut t, model, $dm, od, exp, $ce);
+                std::mem::forget(t);
+            }
+        }
+    };
+}
+
+// ---- arithmetic: bit-equal to the Rust operator on (a, b) in this order ----
+arm3!(c16_add_ttt, AddFloat, ValueTag::Float, T, T, T, false, |a, b| fexp(fv(a) + fv(b)));
+arm3!(c16_sub_ttt, SubFloat, ValueTag::Float, T, T, T, false, |a, b| fexp(fv(a) - fv(b)));
+arm3!(c16_sub_too, SubFloat, ValueTag::Float, T, O, O, false, |a, b| fexp(fv(a) - fv(b)));
+arm3!(c16_mul_ttt, MulFloat, ValueTag::Float, T, T, T, false, |a, b| fexp(fv(a) * fv(b)));
+arm_imm_float!(c16_addimm_tt, AddFloatImm, T, T, false, |a, b| fexp(fv(a) + fv(b)));
+arm_imm_float!(c16_subimm_tt, SubFloatImm, T, T, false, |a, b| fexp(fv(a) - fv(b)));
+arm_imm_float!(c16_subimm_oo, SubFloatImm, O, O, false, |a, b| fexp(fv(a) - fv(b)));
+arm_imm_float!(c16_mulimm_tt, MulFloatImm, T, T, false, |a, b| fexp(fv(a) * fv(b)));
+
+// ---- division: a zero divisor (either zero) is a division-by-zero error ----
+// Two symbolic 64-bit float dividers (implementation + oracle) do not finish under CBMC
+// (measured: > 400 s), so the divisor ranges over a fixed set chosen nondeterministically
+// (both zeros, +-1, -2, 3, the extremes, inf, NaN); the dividend is fully symbolic.
+pub(super) fn divisor_from_set() -> u64 {
+    let k: u8 = kani::any();
+    kani::assume(k < 10);
+    let f: f64 = match k {
+        0 => 0.0,
+        1 => -0.0,
+        2 => 1.0,
+        3 => -1.0,
+        4 => -2.0,
+        5 => 3.0,
+        6 => 1.7976931348623157e308,
+        7 => 5e-324,
+        8 => f64::INFINITY,
+        _ => f64::NAN,
+    };
+    f.to_bits()
+}
+pub(super) fn fdiv_spec(a: Value, b: Value) -> Exp {
+    let bb = b.0 & !(1u64 << 63);
+    if bb == 0 {
+        Exp::Err(EK_DIVZERO)
+    } else {
+        fexp(fv(a) / fv(b))
+    }
+}
+macro_rules! div_float_harness {
+    ($name:ident, $m1:expr, $m2:expr) => {
+        vm_harness! {
+            #[kani::unwind(9)]
+            fn $name() {
+                let (od, o1, o2) = (OFF_DEST, OFF_R1, OFF_R2);
+                let mut t = mk_thread(vec![Instr::DivFloat(enc(T, od), enc($m1, o1), enc($m2, o2)), Instr::Stop], vec![], vec![]);
+                push_frame(&mut t, ValueTag::Float);
+                let b = Value(divisor_from_set(), ValueTag::Float);
+                if $m2 == O { t.value_stack[slot(o2)] = b; }
+                if $m1 == T { let v = sym_val(ValueTag::Float); t.value_stack.push(v); }
+                if $m2 == T { t.value_stack.push(b); }
+                let mut model = t.value_stack.clone();
+                let vb = fetch(&mut model, $m2, o2);
+                let va = fetch(&mut model, $m1, o1);
+                check_step(&mut t, model, T, od, fdiv_spec(va, vb), true);
+                std::mem::forget(t);
+            }
+        }
+    };
+}
+div_float_harness!(c16_div_ttt, T, T);
+div_float_harness!(c16_div_tto, T, O);
+macro_rules! div_float_imm_harness {
+    ($name:ident, $m1:expr) => {
+        vm_harness! {
+            #[kani::unwind(9)]
+            fn $name() {
+                let (od, o1) = (OFF_DEST, OFF_R1);
+                let b = Value(divisor_from_set(), ValueTag::Float);
+                let mut t = mk_thread(vec![Instr::DivFloatImm(enc(T, od), enc($m1, o1), 1), Instr::Stop], vec![], vec![7.0, fv(b), 9.0]);
+                push_frame(&mut t, ValueTag::Float);
+                if $m1 == T { let v = sym_val(ValueTag::Float); t.value_stack.push(v); }
+                let mut model = t.value_stack.clone();
+                let va = fetch(&mut model, $m1, o1);
+                check_step(&mut t, model, T, od, fdiv_spec(va, b), true);
+                std::mem::forget(t);
+            }
+        }
+    };
+}
+div_float_imm_harness!(c16_divimm_tt, T);
+div_float_imm_harness!(c16_divimm_to, O);
+
+// ---- comparisons against the reference total order ----
+arm3!(c16_lt_ttt, LessThanFloat, ValueTag::Float, T, T, T, false, |a, b| bv(ord_key(a) < ord_key(b)));
+arm3!(c16_le_ttt, LessThanOrEqualFloat, ValueTag::Float, T, T, T, false, |a, b| bv(ord_key(a) <= ord_key(b)));
+arm3!(c16_gt_ttt, GreaterThanFloat, ValueTag::Float, T, T, T, false, |a, b| bv(ord_key(a) > ord_key(b)));
+arm3!(c16_ge_ttt, GreaterThanOrEqualFloat, ValueTag::Float, T, T, T, false, |a, b| bv(ord_key(a) >= ord_key(b)));
+arm3!(c16_eq_ttt, EqualFloat, ValueTag::Float, T, T, T, false, |a, b| bv(ord_key(a) == ord_key(b)));
+arm3!(c16_lt_too, LessThanFloat, ValueTag::Float, T, O, O, false, |a, b| bv(ord_key(a) < ord_key(b)));
+arm3!(c16_ge_tto, GreaterThanOrEqualFloat, ValueTag::Float, T, T, O, false, |a, b| bv(ord_key(a) >= ord_key(b)));
+arm_imm_float!(c16_ltimm_tt, LessThanFloatImm, T, T, false, |a, b| bv(ord_key(a) < ord_key(b)));
+arm_imm_float!(c16_leimm_tt, LessThanOrEqualFloatImm, T, T, false, |a, b| bv(ord_key(a) <= ord_key(b)));
+arm_imm_float!(c16_gtimm_tt, GreaterThanFloatImm, T, T, false, |a, b| bv(ord_key(a) > ord_key(b)));
+arm_imm_float!(c16_geimm_tt, GreaterThanOrEqualFloatImm, T, T, false, |a, b| bv(ord_key(a) >= ord_key(b)));
+arm_imm_float!(c16_eqimm_tt, EqualFloatImm, T, T, false, |a, b| bv(ord_key(a) == ord_key(b)));
+
+// The reference order is a total order consistent with bit equality, and agrees with
+// IEEE `<` on ordinary numbers (so the laws of C16/C24 follow for every arm above).
+#[kani::proof]
+fn c16_ref_order_laws() {
+    let a = Value(kani::any(), ValueTag::Float);
+    let b = Value(kani::any(), ValueTag::Float);
+    let (ka, kb) = (ord_key(a), ord_key(b));
+    assert!((ka == kb) == (a.0 == b.0), "key equality is bit equality");
+    let (fa, fb) = (fv(a), fv(b));
+    if !fa.is_nan() && !fb.is_nan() && !(fa == 0.0 && fb == 0.0) {
+        assert!((ka < kb) == (fa < fb), "agrees with IEEE < on non-NaN operands");
+    }
+    if fa == 0.0 && fb == 0.0 && a.0 != b.0 {
+        assert!((ka < kb) == (a.0 >> 63 == 1), "-0.0 orders below +0.0");
+    }
+    kani::cover!(fa.is_nan() && !fb.is_nan(), "req: NaN against number");
+    kani::cover!(fa < fb, "req: ordinary pair");
+}
+
+// ---- unary arms: dest, reg ----
+macro_rules! arm2 {
+    ($name:ident, $variant:ident, $tag:expr, $dm:expr, $m1:expr, |$a:ident| $spec:expr) => {
+        vm_harness! {
+            #[kani::unwind(9)]
+            fn $name() {
+                let (od, o1) = (OFF_DEST, OFF_R1);
+                let mut t = mk_thread(
+                    vec![Instr::$variant(enc($dm, od), enc($m1, o1)), Instr::Stop],
+                    vec![],
+                    vec![],
+                );
+                push_frame(&mut t, $tag);
+                if $m1 == T { let v = sym_val($tag); t.value_stack.push(v); }
+                let mut model = t.value_stack.clone();
+                let va = fetch(&mut model, $m1, o1);
+                let $a = va;
+                let exp: Exp = $spec;
+                check_step(&mut t, model, $dm, od, exp, false);
+                std::mem::forget(t);
+            }
+        }
+    };
+}
+
+// int_from_float: NaN -> 0, saturating at the i64 range, otherwise the cast's truncation
+pub(super) fn int_from_float_spec(a: Value) -> Exp {
+    let f = fv(a);
+    let r: i64 = if f.is_nan() {
+        0
+    } else if f >= 9223372036854775808.0 {
+        i64::MAX
+    } else if f < -9223372036854775808.0 {
+        i64::MIN
+    } else {
+        f as i64
+    };
+    Exp::Val(Value::from(r))
+}
+arm2!(c16_int_from_float_tt, IntFromFloat, ValueTag::Float, T, T, |a| int_from_float_spec(a));
+arm2!(c16_int_from_float_oo, IntFromFloat, ValueTag::Float, O, O, |a| int_from_float_spec(a));
+
+// float_from_int: the cast (round to nearest); exactness below 2^53 is checked on the cast alone
+pub(super) fn float_from_int_spec(a: Value) -> Exp {
+    fexp((a.0 as i64) as f64)
+}
+#[kani::proof]
+fn c16_int_float_cast_exact_below_2_53() {
+    let n: i64 = kani::any();
+    kani::assume(n > -9007199254740992 && n < 9007199254740992);
+    let f = n as f64;
+    assert!(f as i64 == n, "int -> float -> int is the identity below 2^53");
+    kani::cover!(n < 0, "req: negative");
+}
+arm2!(c16_float_from_int_tt, FloatFromInt, ValueTag::Int, T, T, |a| float_from_int_spec(a));
+
+// Not (C01/C02 plumbing)
+arm2!(c01_not_tt, Not, ValueTag::Bool, T, T, |a| bv(a.0 == 0));
+arm2!(c01_not_oo, Not, ValueTag::Bool, O, O, |a| bv(a.0 == 0));
+arm3!(c01_eqbool_ttt, EqualBool, ValueTag::Bool, T, T, T, false, |a, b| bv((a.0 != 0) == (b.0 != 0)));
+
